@@ -285,6 +285,11 @@ type fnResult struct {
 	Sig       []string          `json:"sig,omitempty"` // per tuple: digest of the first call's outcome
 }
 
+// orderRequested: KEYS(obj, true) asks for sorted keys — the element order is then part of the result
+func orderRequested(name string, t tuple) bool {
+	return name == "KEYS" && len(t) >= 2 && t[1] == values.True
+}
+
 func digest(name string, o outcome) string {
 	h := fnv.New64a()
 	h.Write([]byte{o.class})
@@ -314,7 +319,11 @@ func observe(name string, f core.Function, ts []tuple, rev bool) fnResult {
 		o1 := callOnce(f, a)
 		after := render(a)
 		r.Calls++
-		r.Sig[ti] = digest(name, o1)
+		if orderRequested(name, t) {
+			r.Sig[ti] = digest("", o1) // the order of the result is specified: compared as it is
+		} else {
+			r.Sig[ti] = digest(name, o1)
+		}
 		switch o1.class {
 		case 'o':
 			r.Ok++
@@ -338,7 +347,7 @@ func observe(name string, f core.Function, ts []tuple, rev bool) fnResult {
 		o2 := callOnce(f, b)
 		r.Calls++
 		same := o1.class == o2.class && o1.val == o2.val
-		if !same && o1.class == o2.class && setValued[name] && strings.Join(o1.elems, "|") == strings.Join(o2.elems, "|") {
+		if !same && o1.class == o2.class && setValued[name] && !orderRequested(name, t) && strings.Join(o1.elems, "|") == strings.Join(o2.elems, "|") {
 			same = true
 			r.OrderOnly++
 		}
